@@ -163,7 +163,7 @@ DoPickle(s, o) ==
                    !.tx = [i \in 1..Len(s.tx) |-> [s.tx[i] EXCEPT !.new = @ \ {o}, !.dirty = @ \ {o}, !.deleted = @ \ {o}, !.ksw[o] = NoKey]]], "self")
 \* ------------------------------------------------------------------ post-processing of every step
 NonFlushers == {"Add", "SetV", "Delete", "Expire", "ExpireAll", "ExpireV", "Rollback", "Close", "ExtSet", "ExtDel", "DropRef", "Pickle",
-                "Expunge", "MakeTransient"}
+                "Expunge", "MakeTransient", "PickleOpt"}
 \* what keeps an unreferenced object alive: session._new / session._deleted (strong), identity_map._modified + state._strong_obj
 Held(s, o) == o \in Range(s.new) \/ o \in s.sdel \/ (InMapS(s, o) /\ s.mod[o])
 \* an unflushed change, by value (not by the modified flag)
@@ -203,7 +203,9 @@ NextX == ~st.taint /\
        \* partial expiry of fully loaded objects that are not marked deleted (see above; an object with expired id AND the
        \* modified flag but no net change is loaded by the real flush, which the base module does not model)
        \/ (On("ExpireV") /\ (InMapS(st, o) => st.exp[o] = {} /\ o \notin st.sdel) /\ StepX("ExpireV", <<o>>, DoExpireV(Clear(st), o)))
-       \/ (On("ExpireV") /\ (InMapS(st, o) => st.exp[o] = {} /\ o \notin st.sdel) /\ StepX("RefreshV", <<o>>, DoRefreshV(Clear(st), o)))
+       \* (not while a pending object carries o's primary key: the base flush loads a partially expired colliding entry, the ORM does not)
+       \/ (On("ExpireV") /\ (InMapS(st, o) => st.exp[o] = {} /\ o \notin st.sdel /\ \A p \in Range(st.new) : st.pk[p] # st.key[o])
+           /\ StepX("RefreshV", <<o>>, DoRefreshV(Clear(st), o)))
        \/ (On("Refresh") /\ StepX("Refresh", <<o>>, DoRefresh(Clear(st), o)))
        \/ (On("FRefresh") /\ ~st.needrb /\ StepX("FRefresh", <<o>>, FThen(Clear(st), LAMBDA s : DoRefresh(s, o))))
        \/ (On("Read") /\ ReadOk(o) /\ StepX("Read", <<o>>, DoRead(Clear(st), o)))
@@ -226,6 +228,10 @@ NextX == ~st.taint /\
   \/ (On("Merge") /\ ~st.needrb /\ \E src \in Srcs : \E load \in (IF src.kind = "Dm" THEN {FALSE} ELSE BOOLEAN) :
          \E r \in {DoMerge(Clear(st), src, load)} : r.ret # "nospare" /\ StepX("Merge", ArgOfSrc(src, load), r))
   \/ (On("MergeTok") /\ ~st.needrb /\ \E k \in Keys : st.committed[k] # Absent /\ StepX("MergeTok", <<k>>, DoMergeTok(Clear(st), k)))
+  \* an instance that ANOTHER session loaded with a per-instance loader option (defer(T.v)) - optionally expired afterwards - is
+  \* pickled, unpickled and re-attached to a third session: reading v there gives the committed row's value; this session is untouched
+  \/ (On("PickleOpt") /\ \E k \in Keys : \E p \in Protos : \E e \in {"expired", "deferred"} :
+         st.committed[k] # Absent /\ StepX("PickleOpt", <<k, p, e>>, R(Clear(st), Val(st.committed[k]))))
   \/ (On("Ext") /\ ~st.wr /\ \E k \in Keys :
          \/ \E x \in Vals : st.committed[k] # x /\ StepX("ExtSet", <<k, x>>, R(ExtWrite(Clear(st), k, x), "ok"))
          \/ (st.committed[k] # Absent /\ StepX("ExtDel", <<k>>, R(ExtWrite(Clear(st), k, Absent), "ok"))))
@@ -350,6 +356,7 @@ PickleCopy == [][ IsPickle =>
     /\ ~InMapS(st', c) /\ c \notin Range(st'.new)
     /\ \A x \in Objs \ {c} : st'.life[x] = st.life[x] /\ st'.v[x] = st.v[x] /\ st'.pk[x] = st.pk[x] /\ st'.exp[x] = st.exp[x]
     /\ st'.imap = st.imap /\ st'.work = st.work /\ last'.sql = 0 ]_vars
+PickleOptValue == [][ last'.a = "PickleOpt" => (last'.ret = Val(st.committed[last'.arg[1]]) /\ V(st') = V(st) /\ last'.sql = 0) ]_vars
 PickleSelf == [][ (last'.a = "Pickle" /\ last'.ret = "self") =>
     LET o == last'.arg[1] IN
     /\ [V(st') EXCEPT !.tx = <<>>] = [V(st) EXCEPT !.wasdel[o] = FALSE, !.tx = <<>>] /\ Len(st'.tx) = Len(st.tx)
